@@ -10,7 +10,7 @@ from diffrun import *
 from eng_generic import DiffEngine
 import snapshots
 
-DUMP_PREFIXES = ("TOPO ", "O ", "L ", "TD ", "END ", "ENUM ")
+DUMP_PREFIXES = ("TOPO ", "O ", "L ", "TD ", "END ", "ENUM ", "XKIND ", "XATTR ", "XVAL ", "XINI ", "XINIERR ")
 TOOL_TUS = ["calc", "distrib", "diff", "patch", "lstopo"]
 NPROC = min(8, NCPU)
 
